@@ -35,7 +35,7 @@ def plan(tier, seed):
         nsl = 4 if q else 24
         for sl in range(nsl):
             units.append({'kind': 'flips', 'proto': proto, 'mutual': mutual, 'slice': sl, 'nslices': nsl,
-                          'per_record': 14 if q else 0, 'weight': 4})
+                          'per_record': 24 if q else 0, 'weight': 4})
         units.append({'kind': 'records', 'proto': proto, 'mutual': mutual, 'weight': 4})
         if proto == 'tls13':
             for sl in range(2 if q else 12):
